@@ -45,25 +45,26 @@ Record Inv1 (s : st) : Prop := {
 }.
 
 Lemma decode_thr_initial l t : In t (decode_thr l) ->
-  (exists k, t = TR k RClaim /\ k <> KDtor) \/ (exists k, t = TW k WReady false) \/ t = TW WHasValue WPre false.
+  (exists k, t = TR k RClaim /\ k <> KDtor) \/ (exists k pc, t = TW k pc false /\ (pc = WStart \/ pc = WReady \/ pc = WSub false None)).
 Proof.
   unfold decode_thr. intros H.
   repeat match type of H with
   | In _ (match ?x with _ => _ end) => destruct x; cbn [In] in H; try contradiction
   end;
   destruct H as [ <- | [] ]; try (left; eexists; split; [reflexivity|discriminate]);
-    try (right; left; eexists; reflexivity); try (right; right; reflexivity).
+    try (right; do 2 eexists; split; [reflexivity|tauto]).
 Qed.
 
 Definition initial_thr (t : thr) : Prop :=
-  (exists k, t = TR k RClaim) \/ t = TR KDtor RXWait \/ (exists k, t = TW k WReady false) \/ t = TW WHasValue WPre false.
+  (exists k, t = TR k RClaim) \/ t = TR KDtor RXWait \/
+  (exists k pc, t = TW k pc false /\ (pc = WStart \/ pc = WReady \/ pc = WSub false None)).
 
 Lemma init_thrs ops i t : T (init ops) i = Some t -> initial_thr t.
 Proof.
   unfold T, init. cbn [thrs]. intros H. apply nth_error_In in H. apply in_app_or in H.
   destruct H as [H|[ <- | [] ]].
   - apply in_flat_map in H. destruct H as (l & _ & H). apply decode_thr_initial in H.
-    destruct H as [(k & -> & _)|[(k & ->)| -> ]]; unfold initial_thr; eauto.
+    destruct H as [(k & -> & _)|(k & pc & -> & Q)]; unfold initial_thr; eauto 6.
   - unfold initial_thr; auto.
 Qed.
 
@@ -72,11 +73,11 @@ Proof.
   constructor; cbn [init owner winner payload slot walk acc chain].
   - tauto.
   - intros i k pc H W. apply init_thrs in H.
-    destruct H as [(k' & E)|[E|[(k' & E)|E]]]; inversion E; subst; discriminate.
+    destruct H as [(k' & E)|[E|(k' & pc' & E & _)]]; inversion E; subst; discriminate.
   - discriminate.
   - intros _. repeat split. discriminate.
   - intros i k pc H W. apply init_thrs in H.
-    destruct H as [(k' & E)|[E|[(k' & E)|E]]]; inversion E; subst; discriminate.
+    destruct H as [(k' & E)|[E|(k' & pc' & E & _)]]; inversion E; subst; discriminate.
   - split; [discriminate|]. intros (i & k & pc & H & _). discriminate.
   - discriminate.
 Qed.
@@ -188,7 +189,7 @@ Proof.
                walk s0 = walk s /\ thrs s0 = thrs s).
   { subst s0. destruct (is_async k); cbn [owner winner payload slot walk thrs]; repeat split. }
   destruct S0 as (A1 & A2 & A3 & A4 & A5 & A6).
-  set (l := if is_async k then rot_last (acc s) else acc s).
+  set (l := if pops k then rot_last (acc s) else acc s).
   pose proof (resume_all_frame l s0) as F. cbn zeta in F.
   destruct F as (F1 & F2 & F3 & F4 & F5 & F6 & F7 & F8 & F9).
   exists (thrs (resume_all s0 l)), (sublog (resume_all s0 l)), (wlog (resume_all s0 l)), (elog (resume_all s0 l)).
@@ -406,7 +407,8 @@ Proof.
            ++ right. exists i, k. auto.
     + unfold enabled in E. fold (T s i) in E. rewrite Ht in E. discriminate.
   - (* waiter *)
-    destruct pc as [| |r e| | |o]; cbn [fst].
+    destruct pc as [| |r e| | |o|]; cbn [fst].
+    7:{ rewrite set_thr_same_fields. eapply inv1_waiter_step; [exact I|exact Ht|tauto]. }
     + destruct (slot s) eqn:SL; rewrite set_thr_same_fields;
         (eapply inv1_waiter_step; [exact I|exact Ht|rewrite SL; tauto]).
     + destruct (slot s) eqn:SL; rewrite set_thr_same_fields;
@@ -491,6 +493,6 @@ Proof.
         -- match goal with |- context[finish ?x i k] => destruct (finish_fields x i k) as (A & B & C) end.
            cbn [fst]. rewrite A, B, C. fold s0. rewrite R2, R3, R4. cbn. tauto.
         -- cbn [fst]. fold s0. rewrite R2, R3, R4. cbn. tauto.
-  - destruct pc as [| |r e| | |o]; cbn [fst]; try (destruct (slot s) eqn:SL); try (cbn [set_thr winner payload slot]; repeat split; auto; congruence).
+  - destruct pc as [| |r e| | |o|]; cbn [fst]; try (destruct (slot s) eqn:SL); try (cbn [set_thr winner payload slot]; repeat split; auto; congruence).
     destruct (onat_eqb (head l) e); cbn [set_thr winner payload slot]; repeat split; auto; congruence.
 Qed.
